@@ -25,8 +25,9 @@ META = dict(
                "SmartServerPipeStreamMedium - and must agree step by step, with each other (the property) and with "
                "the specification (conformance).",
     level_note="The replayed paths are a seeded sample of the transition cover (all of it when it fits the tier's "
-               "budget). Client and server live in one process (synchronous in-process medium, no sockets); protocol "
-               "v3 only. Reads are made under a read lock, as the Repository API requires. Exception classes are "
+               "budget) plus the two shortest paths showing the known tag-cache defect. Client and server live in one "
+               "process (synchronous in-process medium; thorough repeats 40 paths through a real SmartTCPServer on "
+               "loopback); protocol v3 only. Reads are made under a read lock, as the Repository API requires. Exception classes are "
                "compared; for generate_revision_history of an absent revision the smart verb's documented "
                "NoSuchRevision and the local GhostRevisionsHaveNoRevno are the same refusal. Trusted: TLC, the JSON "
                "bridge, BranchBuilder for the prepared revisions.",
@@ -185,7 +186,7 @@ class Session:
             from breezy import transport as T
             from breezy.bzr.smart import server as S
             if self.tcp is None:
-                self.tcp = S.SmartTCPServer(self.backing, client_timeout=30.0)
+                self.tcp = S.SmartTCPServer(self.backing, client_timeout=3600.0)
                 self.tcp._ACCEPT_TIMEOUT = 0.05
                 self.tcp.start_server("127.0.0.1", 0)
                 self.tcp.start_background_thread("-c32")
@@ -751,5 +752,7 @@ def run(ctx):
                "push OUT of it) are exercised with VFS verbs enabled only; everything else also with BRZ_NO_SMART_VFS")
     ctx.rule("paths = edge cover of TLC's state graph of BranchOpsMC (every edge = one client operation in one abstract "
              "world; Vfs=TRUE graph replayed local + bzr://, Vfs=FALSE graph replayed local + bzr:// + bzr:// without VFS), "
-             "%s; non-trivial = at least 2 state-changing operations; distinct = operation sequence"
-             % ("all of them" if ctx.cov["exhaustive"] else "seeded sample of %d" % len(jobs)))
+             "%s, plus the %d shortest paths that show the known tag-cache defect; non-trivial = at least 2 state-changing "
+             "operations; distinct = operation sequence"
+             % ("all of them" if ctx.cov["exhaustive"] else "seeded sample of %d" % (len(jobs) - len(KNOWN_DEFECT_PATHS)),
+                len(KNOWN_DEFECT_PATHS)))
